@@ -575,6 +575,7 @@ func (s *HASyncer) performFullSync() error {
 			)
 		}
 	}
+	s.pruneStoreLocked()
 	s.receivedMu.Unlock()
 
 	s.mu.Lock()
@@ -723,6 +724,7 @@ func (s *HASyncer) handleSSEData(data []byte) error {
 			s.receivedSessions[session.SessionID] = &session
 			s.store.PutSession(&session)
 		}
+		s.pruneStoreLocked()
 		s.receivedMu.Unlock()
 	}
 
@@ -731,6 +733,23 @@ func (s *HASyncer) handleSSEData(data []byte) error {
 	s.mu.Unlock()
 
 	return nil
+}
+
+// pruneStoreLocked removes from the store every session that is not part of the
+// snapshot just applied (sessions the active deleted while this node was not
+// listening). Caller holds receivedMu.
+func (s *HASyncer) pruneStoreLocked() {
+	for _, old := range s.store.GetAllSessions() {
+		if _, ok := s.receivedSessions[old.SessionID]; ok {
+			continue
+		}
+		if err := s.store.DeleteSession(old.SessionID); err != nil {
+			s.logger.Warn("Failed to delete stale session",
+				zap.String("session_id", old.SessionID),
+				zap.Error(err),
+			)
+		}
+	}
 }
 
 // waitReconnect waits with exponential backoff and jitter before reconnecting.
